@@ -333,6 +333,16 @@ func (s *Sim) sampleStateLocked() {
 	s.states[sum] = struct{}{}
 }
 
+// Tracef appends a line to the textual trace only (diagnostics that must not be part of the
+// run's identity).
+func (s *Sim) Tracef(format string, args ...interface{}) {
+	s.mu.Lock()
+	if s.cfg.Trace {
+		s.trace = append(s.trace, fmt.Sprintf("%9.3fms ", float64(s.now)/1e6)+fmt.Sprintf(format, args...))
+	}
+	s.mu.Unlock()
+}
+
 // Hash is the fingerprint of the event log so far.
 func (s *Sim) Hash() string { s.mu.Lock(); defer s.mu.Unlock(); return fmt.Sprintf("%016x", s.hash) }
 
